@@ -40,6 +40,7 @@ class Check:
         self.trusted = []
         self.explanation = ""
         self.floors = []
+        self.pending_floors = []
         self.extra = {}
         self.notes = []
 
@@ -67,9 +68,10 @@ class Check:
             self.notes.append("floor not met for %s (%d < %d) while violations are being reported" % (rule, count, minimum))
             return
         if count < minimum:
-            raise AnalysisError("%s: matched %d %s, expected at least %d (anchor moved or shape "
-                                "unreadable; the rule refuses to pass vacuously)"
-                                % (rule, count, what, minimum))
+            # decided at the end of the run: if the rules that follow report violations (e.g. "counter X is never updated"), those are
+            # the verdict; if nothing else fails, the unmet floor makes the run fail closed
+            self.pending_floors.append("%s: matched %d %s, expected at least %d (anchor moved or shape "
+                                       "unreadable; the rule refuses to pass vacuously)" % (rule, count, what, minimum))
 
     def assume(self, text):
         if text not in self.assumptions:
@@ -84,6 +86,10 @@ class Check:
 
     # -- finishing -----------------------------------------------------------
     def finish(self):
+        if self.pending_floors and all(i["ok"] for i in self.instances):
+            raise AnalysisError(self.pending_floors[0])
+        for msg in self.pending_floors:
+            self.notes.append("floor not met while violations are being reported: " + msg)
         known = [k for k in load_known() if k.get("property") == self.pid]
         open_keys = {k["key"]: k for k in known if k.get("status") == "open"}
         failing = [i for i in self.instances if not i["ok"]]
